@@ -272,4 +272,58 @@ def native_sampler_witness(seed):
 
 
 N_CHUNKS = 12
-TASKS = [('selections%02d' % c, (lambda rec, c=c: selections_task(rec, c, N_CHUNKS))) for c in range(N_CHUNKS)] + [('sampler', sampler)]
+def degenerate_values(rec):
+    """bounded (never counted as proved): the value-dependent corner cases that a symbolic vector does not hit -- every covariate effect
+    exactly zero, every covariate exactly zero (reference group), single non-zero entries: the transform must still return one parameter
+    set per individual, and sampling / individual parameters must use it for every individual"""
+    import chi as real
+    cases = []
+    for n_cov in (1, 2):
+        for beta_kind in ('zero', 'one non-zero', 'all non-zero'):
+            for cov_kind in ('zero', 'one non-zero row', 'all non-zero'):
+                cases.append((n_cov, beta_kind, cov_kind))
+
+    def one(case):
+        n_cov, beta_kind, cov_kind = case
+        n_ids, n_pop, n_dim = 3, 2, 2
+        cm = real.LinearCovariateModel(n_cov=n_cov)
+        cm.set_population_parameters([[0, 0], [1, 1]])
+        n_sel = 2
+        beta = np.zeros(n_sel * n_cov)
+        if beta_kind == 'one non-zero':
+            beta[-1] = 0.3
+        if beta_kind == 'all non-zero':
+            beta[:] = 0.1 + 0.1 * np.arange(len(beta))
+        cov = np.zeros((n_ids, n_cov))
+        if cov_kind == 'one non-zero row':
+            cov[1, :] = 0.7
+        if cov_kind == 'all non-zero':
+            cov[:] = 0.2 + 0.1 * np.arange(n_ids * n_cov).reshape(n_ids, n_cov)
+        pop = np.array([[1.0, 2.0], [0.5, 0.8]])
+        vt = np.asarray(cm.compute_population_parameters(beta, pop, cov))
+        if vt.shape != (n_ids, n_pop, n_dim):
+            return 'effects %s, covariates %s (n_cov = %d): compute_population_parameters returns shape %s, expected one parameter set per individual %s' % (beta_kind, cov_kind, n_cov, vt.shape, (n_ids, n_pop, n_dim))
+        want = np.broadcast_to(pop, (n_ids, n_pop, n_dim)).copy()
+        b = beta.reshape(n_sel, n_cov)
+        want[:, 0, 0] += cov @ b[0]
+        want[:, 1, 1] += cov @ b[1]
+        if not np.allclose(vt, want):
+            return 'effects %s, covariates %s: transformed parameters %s, documented linear shift gives %s' % (beta_kind, cov_kind, vt.tolist(), want.tolist())
+        # through the population model: every sampled individual is a draw, pooled individual parameters exist for every individual
+        cpm = real.CovariatePopulationModel(real.GaussianModel(), real.LinearCovariateModel(n_cov=n_cov))
+        par = np.concatenate([[5.0, 0.01], np.tile(beta[:n_cov] if len(beta) >= n_cov else beta, 2)[:2 * n_cov]])
+        smp = np.asarray(cpm.sample(par, cov, n_samples=n_ids, seed=3))
+        if smp.shape != (n_ids, 1) or not np.all(np.isfinite(smp)) or np.any(np.abs(smp - 5.0) > 3.0):
+            return 'effects %s, covariates %s: CovariatePopulationModel.sample for %d individuals returns %s (expected draws around 5)' % (beta_kind, cov_kind, n_ids, smp.tolist())
+        cpp = real.CovariatePopulationModel(real.PooledModel(), real.LinearCovariateModel(n_cov=n_cov))
+        cpp.set_n_ids(n_ids)
+        psi = np.asarray(cpp.compute_individual_parameters(np.concatenate([[2.0], beta[:n_cov]]), eta=np.zeros((n_ids, 1)), covariates=cov))
+        if psi.shape != (n_ids, 1):
+            return 'effects %s, covariates %s: pooled individual parameters have shape %s for %d individuals' % (beta_kind, cov_kind, psi.shape, n_ids)
+        return None
+    rec.native_check('degenerate.values', ['chi._covariate_models.LinearCovariateModel.compute_population_parameters', 'chi._population_models.CovariatePopulationModel.sample',
+                                           'chi._population_models.CovariatePopulationModel.compute_individual_parameters'], cases, one,
+                     'n_cov in {1, 2} x covariate effects {all zero, one non-zero, all non-zero} x covariates {all zero, one non-zero row, all non-zero}; 3 individuals; distinct by pattern', exhaustive=True)
+
+
+TASKS = [('degenerate', degenerate_values)] + [('selections%02d' % c, (lambda rec, c=c: selections_task(rec, c, N_CHUNKS))) for c in range(N_CHUNKS)] + [('sampler', sampler)]
